@@ -21,6 +21,38 @@ except ImportError:  # pragma: no cover
     B = None
 
 
+def _guard_rules():
+    """a rule whose named anchor is gone reports that (deferred CHECK-ERROR) instead of ending the whole check: the other rules
+    of the bundle still report what the changed code does, so a change that both deletes an anchor and breaks the property
+    is reported as the VIOLATION it is"""
+    import functools
+    from .engine import CheckError
+
+    def wrap(fn):
+        @functools.wraps(fn)
+        def g(ctx, *a, **k):
+            try:
+                return fn(ctx, *a, **k)
+            except CheckError as e:
+                msg = str(e)
+                if not msg.startswith("anchor lost"):
+                    raise
+                ctx.blind.append("%s (rule function %s)" % (msg, fn.__name__))
+                return None
+        g._guarded = True
+        return g
+    for mod in (I, D, O, T, M, S, C, B):
+        if mod is None:
+            continue
+        for name in dir(mod):
+            fn = getattr(mod, name)
+            if name.startswith("r_") and callable(fn) and not getattr(fn, "_guarded", False) and getattr(fn, "__module__", "") == mod.__name__:
+                setattr(mod, name, wrap(fn))
+
+
+_guard_rules()
+
+
 def fixture_once(ctx, rules):
     """zero-count rules are proved non-blind against the positive fixture, once per check run"""
     if getattr(ctx, "_fixture_done", None) == tuple(rules):
@@ -49,6 +81,7 @@ def representation(ctx, v):
     mutually consistent, so the structural conditions of that consistency are necessary conditions of C01 / C02 too"""
     T.r_tables(ctx, v, want=("R-GROW",))
     T.r_growval(ctx, v)
+    T.r_storelit(ctx, v)
     T.r_repair(ctx, v)
     if S:
         S.r_prim(ctx, v)
@@ -70,6 +103,7 @@ def c02(ctx, v):
 def c03(ctx, v):
     T.r_tables(ctx, v, want=("R-GROW",))
     T.r_growval(ctx, v)
+    T.r_storelit(ctx, v)
     T.r_repair(ctx, v)
     if S:
         S.r_prim(ctx, v)
@@ -123,12 +157,15 @@ def r_absent(ctx, v):
 
 
 def c04(ctx, v):
-    fixture_once(ctx, ["R-UNSAFEKINDS", "R-HINT"])
+    fixture_once(ctx, ["R-UNSAFEKINDS", "R-HINT", "R-ORDERPANIC"])
+    if B:
+        B.r_orderpanic(ctx, v)
     # an allocation request computed from the UPPER bound of a size_hint (not a promise) is a capacity-overflow panic on a
     # legal iterator
     M.r_hint(ctx, v)
     T.r_tables(ctx, v, want=("R-GROW",))
     T.r_growval(ctx, v)
+    T.r_storelit(ctx, v)
     T.r_repair(ctx, v)
     if S:
         S.r_prim(ctx, v)
@@ -177,6 +214,7 @@ def c07(ctx, v):
     bulk = lambda f: any(k in f.key for k in ("::from", "::from_iter", "::extend", "::append"))
     T.r_tables(ctx, v, want=("R-GROW",), only=bulk)
     T.r_growval(ctx, v, only=bulk)
+    T.r_storelit(ctx, v)
 
 
 def c08(ctx, v):
@@ -258,7 +296,8 @@ def c15(ctx, v):
     # the table-writing bodies the reader runs: its own, or the reviewed bulk constructors it hands the pairs to
     vs = "<store::serde::StoreVisitor as Visitor>::visit_seq"
     reached = set(v.fx.reach(vs)) if v.prog.fn(vs) is not None else set()
-    T.r_tables(ctx, v, want=("R-GROW",), only=lambda f: "serde" in f.key or "visit_seq" in f.key or f.key in reached)
+    T.r_tables(ctx, v, want=("R-GROW",), only=lambda f: "serde" in f.key or "visit_seq" in f.key or "Deserialize" in f.key or f.key in reached)
+    T.r_storelit(ctx, v)
     n = sum(1 for o in ctx.obs if o.rule == "R-RESTORE" and o.config == "serde")
     ctx.floor("R-RESTORE[Deserialize]", n, 2)
 
@@ -323,7 +362,10 @@ PROPS = {
             "and the use leave of it); R-UNITS (heap subscripts are Positions, qp/map-slot subscripts are Indexes); R-GROW, R-GROWVAL, "
             "R-REPAIR, R-PRIM, R-RESET (structural conditions for the invariant); R-SIFT (the sift functions write heap[]/qp[] cell by cell: the reviewed "
             "write skeleton is what keeps them inverse permutations); R-WRITERS (who writes the tables); R-UNSAFEKINDS; R-CURSOR; R-HINT (no allocation "
-            "request is computed from the upper bound of a size_hint).",
+            "request is computed from the upper bound of a size_hint); R-STORELIT (a Store literal is the empty store or a field-wise copy / move of one "
+            "other Store, never assembled from separately computed parts); R-ORDERPANIC (no explicit panic - panic!, assert!, debug_assert!, read on the "
+            "raw MIR behind `cfg!(debug_assertions)` too - is control-dependent on a comparison of priorities: the heap order is not an invariant "
+            "fault-free use preserves, a leaked iter_mut guard leaves it unspecified).",
             "trusted": [TRUST_RUSTC], "assumptions": ["container lengths <= isize::MAX (no overflow of len+1, 2*i+2)"]},
     "C05": {"rules": [c05], "explanation":
             "R-COST: comparison-cost class of every public entry point from the reachability of priority-comparison sites (parametricity: "
@@ -338,8 +380,9 @@ PROPS = {
     "C07": {"rules": [c07], "explanation":
             "R-HINT (taint: the upper bound of Iterator::size_hint reaches no allocation request and no overflow-checked arithmetic, "
             "interprocedurally), R-STRAT (first/last/receiver-wins table; both Extend strategies write the same part of a present entry; append "
-            "swaps only if other is strictly longer and always drains other), R-RESTORE BULK instances (heap_build after every bulk path), "
-            "R-GROW and R-GROWVAL for from/from_iter/extend/append, R-CONSUME (every path of extend/from_iter/from reads the whole source: no early return "
+            "swaps only if other is strictly longer and always drains other; the queue-level FromIterator / From<Vec> reach only Store-level "
+            "strategies with their own duplicate policy - last pair wins / first pair stays - whatever the size hint says), R-RESTORE BULK instances (heap_build after every bulk path), "
+            "R-GROW, R-GROWVAL and R-STORELIT for from/from_iter/extend/append, R-CONSUME (every path of extend/from_iter/from reads the whole source: no early return "
             "on a size hint or a length, loops over next() end only on None).", "trusted": [TRUST_RUSTC], "assumptions": []},
     "C08": {"rules": [c08], "explanation":
             "R-RESTORE for retain/retain_mut/pop_*_if/IterMut-Drop, R-ONCE (user predicate invoked exactly once per element/call, only through "
@@ -377,14 +420,15 @@ PROPS = {
             "trusted": [TRUST_RUSTC, "indexmap iterators are exact, fused and double-ended-consistent"], "assumptions": []},
     "C14": {"rules": [c14], "explanation":
             "R-EQFOOT: Store::eq is exactly IndexMap's equality of the two `map` fields (footprint {map}), both queue eq impls delegate to it and "
-            "define no `ne`; Clone for Store and both queues is derived or field-complete (incl. clone_from); every field type owns its data; "
+            "define no `ne`; Clone for Store and both queues is derived or field-complete (a hand-written clone_from rewrites every field on every "
+            "path: no early return on `==`, which is coarser than the representation); every field type owns its data; "
             "capacity-invisibility (no capacity() result reaches a branch or an argument: a clone, which does not keep the capacity, "
             "cannot behave differently from its source).",
             "trusted": [TRUST_RUSTC, "indexmap PartialEq is set equality of (key,value) pairs"], "assumptions": []},
     "C15": {"rules": [c15], "explanation":
             "serde configuration: R-SERDE (writer and reader use a sequence of (item, priority) pairs of the same arity and order; both queue kinds "
             "delegate to Store's impls; the reader writes no map entry but the pair just read), R-GROW on visit_seq (tables grow only for a new "
-            "key), R-RESTORE on both Deserialize impls (heap_build), R-BOUNDS on the serde code (no panicking arithmetic / access: "
+            "key; R-STORELIT: no Store assembled from separately computed parts), R-RESTORE on both Deserialize impls (heap_build), R-BOUNDS on the serde code (no panicking arithmetic / access: "
             "deserialization is total), R-EQFOOT (what 'equal to the original' means).",
             "trusted": [TRUST_RUSTC, "serde data model"], "assumptions": ["value equality of a round trip is not decided"]},
     "C16": {"rules": [c16], "explanation":
@@ -412,8 +456,9 @@ def configs_for(pid, tier):
         return ["std", "serde", "nostd"]
     if pid == "C15":
         return ["serde"]
-    # the default build, and the build with the optional serde code (a superset: visit_seq, (de)serialize impls)
-    return ["std", "serde"]
+    # the default build, the build with the optional serde code (a superset: visit_seq, (de)serialize impls), and the
+    # no_std build (the cfg twins of the struct definitions and whatever else is gated on `not(feature = "std")`)
+    return ["std", "serde", "nostd"]
 
 
 def run(ctx, pid, tier):
